@@ -2,10 +2,10 @@ package main
 
 import (
 	"encoding/json"
-	"regexp"
 	"fmt"
 	"os"
 	"path/filepath"
+	"regexp"
 	"sort"
 	"strings"
 )
@@ -24,11 +24,16 @@ type baselineFile struct {
 	// parameter names (receiver first) of every function under contract when the baseline was written:
 	// a contract written for parameter r still resolves after the parameter was renamed
 	Signatures map[string][]string `json:"signatures,omitempty"`
+	// field names of every struct type of the module when the baseline was written: a field added later is
+	// mentioned by no contract, so a store to it cannot be judged by any frame clause written before
+	Fields map[string][]string `json:"fields,omitempty"`
 }
 
 // oldSigs: signatures recorded in the baseline (loaded by main); curSigs: signatures of this tree.
 var oldSigs = map[string][]string{}
 var curSigs = map[string][]string{}
+var oldFields = map[string][]string{}
+var curFields = map[string][]string{}
 
 func loadJSON(path string, v interface{}) bool {
 	b, err := os.ReadFile(path)
@@ -120,7 +125,7 @@ func report(cfg *runCfg, g *Gen, results []*fnResult, obls []*Obligation, engine
 			lines = append(lines, fmt.Sprintf("KNOWN-FINDING: property=%s %s (%s)", cfg.prop, kf.What, o.Name))
 			return
 		}
-		tainted := o.fx != nil && o.fx.taintedBy != ""
+		tainted := (o.fx != nil && o.fx.taintedBy != "") || o.NewField
 		if !decided && hasBase && (tainted || (!inBase[o.Name] && !(o.Kind == "requires" && inBase[normRequires(o.Name)]) && !inBase[normClause(o.Name)])) {
 			// a new obligation that no solver decided: undecided, and a violation only when a
 			// counterexample search yields an input that fails on the real code
@@ -134,7 +139,9 @@ func report(cfg *runCfg, g *Gen, results []*fnResult, obls []*Obligation, engine
 			}
 			os.Remove(path)
 			why := "not in baseline"
-			if tainted {
+			if o.NewField {
+				why = "a store to a struct field that did not exist when the contracts were written"
+			} else if tainted {
 				why = "the function calls " + o.fx.taintedBy + ", about which nothing is known"
 			}
 			fmt.Fprintf(os.Stderr, "UNDECIDED: %s status=%s (%s, no failing input reproduced; no violation claimed)\n", o.Name, o.Status, why)
@@ -327,7 +334,7 @@ func writeBaseline(cfg *runCfg, obls []*Obligation, engineErrors int) int {
 		fmt.Fprintf(os.Stderr, "ENGINE-ERROR: baseline not written (%d engine errors)\n", engineErrors)
 		return 2
 	}
-	out := baselineFile{Obligations: map[string][]string{}, Signatures: curSigs}
+	out := baselineFile{Obligations: map[string][]string{}, Signatures: curSigs, Fields: curFields}
 	bad := 0
 	for _, o := range obls {
 		if o.Canary {
